@@ -36,10 +36,14 @@ type Case struct {
 	// EarlyWaiters call Wait in a loop from the moment the Start callers
 	// are released: a Wait that overlaps Start either reports "not started"
 	// or waits for the whole lifecycle like any other
-	EarlyWaiters int    `json:"early_waiters,omitempty"`
-	Hook         string `json:"hook"` // "" | launched | checked
-	Yields       []int  `json:"yields"`
-	Procs        int    `json:"gomaxprocs"`
+	EarlyWaiters int `json:"early_waiters,omitempty"`
+	// SideWaiters wait through Service.Worker() with a context of their
+	// own, which is cancelled while the service is still running: they
+	// give up, the other waiters go on waiting
+	SideWaiters int    `json:"side_waiters,omitempty"`
+	Hook        string `json:"hook"` // "" | launched | checked
+	Yields      []int  `json:"yields"`
+	Procs       int    `json:"gomaxprocs"`
 }
 
 type event struct {
@@ -234,7 +238,7 @@ func runCase(c *Case) (string, string) {
 		}(i)
 	}
 	// declared here, used by the early waiters and (below) by the others
-	bad := make(chan [2]string, c.Waiters+c.EarlyWaiters+2)
+	bad := make(chan [2]string, 4*(c.Waiters+c.EarlyWaiters+c.SideWaiters+2))
 	var checkWait func(who string, err error)
 	checkWaitReady := make(chan struct{})
 	var ewg sync.WaitGroup
@@ -299,6 +303,20 @@ func runCase(c *Case) (string, string) {
 			defer wwg.Done()
 			y(i + 3)
 			checkWait(fmt.Sprintf("waiter %d", i), s.Wait())
+		}(i)
+	}
+	for i := 0; i < c.SideWaiters; i++ {
+		sctx, scancel := context.WithCancel(context.Background())
+		sdone := make(chan struct{})
+		go func() { defer close(sdone); _ = s.Worker()(sctx) }()
+		go func(i int) {
+			y(i + 1)
+			scancel()
+			select {
+			case <-sdone:
+			case <-time.After(limit):
+				bad <- [2]string{"side-waiter-stuck", "Service.Worker() has not returned after its own context was cancelled"}
+			}
 		}(i)
 	}
 	// end the service
@@ -408,10 +426,25 @@ func genCase(t *rapid.T) *Case {
 		Yields:       rapid.SliceOfN(rapid.IntRange(0, 4), 1, 6).Draw(t, "yields"),
 		Procs:        rapid.SampledFrom([]int{1, 2, 4, 16}).Draw(t, "gomaxprocs"),
 	}
+	if rapid.IntRange(0, 2).Draw(t, "sideWaiters") == 0 {
+		c.SideWaiters = rapid.IntRange(1, 2).Draw(t, "sideWaiterCount")
+	}
 	return c
 }
 
-func check(t vkit.TB, test string, c *Case, reps int) {
+// twoAtOnce: two phases fail at the same moment, one with an error and one
+// with a panic (Run returns and the Shutdown hook fires when the service
+// context ends): their reports reach the service's collector concurrently,
+// the first of them while it is still empty.
+func (c *Case) twoAtOnce() bool {
+	ends := c.Ending == "close" || c.Ending == "cancel"
+	return ends && ((c.Run == "error" && c.Shutdown == "panic") || (c.Run == "panic" && c.Shutdown == "error"))
+}
+
+func check(t vkit.TB, test string, c *Case, reps int) int {
+	if c.twoAtOnce() && c.Hook == "" {
+		reps *= 40 // a narrow window: see twoAtOnce
+	}
 	for i := 0; i < reps; i++ {
 		if k, why := runCase(c); why != "" {
 			key := "C10:" + k
@@ -421,6 +454,7 @@ func check(t vkit.TB, test string, c *Case, reps int) {
 			vkit.Fail(t, test, key, *c, "%s (repetition %d)", why, i)
 		}
 	}
+	return reps
 }
 
 func TestServiceLifecycle(t *testing.T) {
@@ -437,9 +471,9 @@ func TestServiceLifecycle(t *testing.T) {
 			return
 		}
 		c := genCase(t)
-		check(t, tSvc, c, reps)
+		n := check(t, tSvc, c, reps)
 		fault := c.Run != "ok" || c.Shutdown == "error" || c.Shutdown == "panic" || c.Cleanup == "error" || c.Cleanup == "panic"
-		vkit.CaseN(tSvc, vkit.Hash(*c), reps, fault || c.Starters >= 2, []string{"ending:" + c.Ending, fmt.Sprintf("fault:%v", fault), fmt.Sprintf("starters>=2:%v", c.Starters >= 2)}, func() any { return *c })
+		vkit.CaseN(tSvc, vkit.Hash(*c), n, fault || c.Starters >= 2, []string{"ending:" + c.Ending, fmt.Sprintf("fault:%v", fault), fmt.Sprintf("starters>=2:%v", c.Starters >= 2), fmt.Sprintf("side-waiters:%v", c.SideWaiters > 0), fmt.Sprintf("two-failures-at-once:%v", c.twoAtOnce())}, func() any { return *c })
 	})
 }
 
